@@ -441,15 +441,25 @@ def regObs (cfg : Config) : List ObsSpec := if cfg.order.contains 3 then cfg.obs
 /-- the four time-step channels, in the order `SimulationContext.step` emits them -/
 def PHASES : List String := ["time_step__prepare", "time_step", "time_step__cleanup", "collect_metrics"]
 
-/-- `register_stratification` / `register_binned_stratification` calls, then `register_adding_observation` calls,
-then `ResultsManager.on_post_setup` -/
-def initRes (cfg : Config) : Except Results.Err Results.Ctx := do
-  let strats ← (regStrats cfg).foldlM (fun ss (sp : StratSpec) =>
-      Results.addStratification [] ss sp.name sp.cats (some sp.excl) (if sp.kind = 4 then some sp.edges else none)) []
-  let c ← (regObs cfg).foldlM (fun c (o : ObsSpec) =>
-      Results.registerObservation c o.name (PHASES.getD o.phase "") .adding o.add o.exc)
+/-- `register_stratification` / `register_binned_stratification` calls (exclusions always passed in code) -/
+def preStrats (cfg : Config) : Except Results.Err (List Results.Strat) :=
+  (regStrats cfg).foldlM (fun ss (sp : StratSpec) =>
+    Results.addStratification [] ss sp.name sp.cats (some sp.excl) (if sp.kind = 4 then some sp.edges else none)) []
+
+/-- … then the `register_adding_observation` calls: the context as it is when setup ends -/
+def preRes (cfg : Config) : Except Results.Err Results.Ctx :=
+  match preStrats cfg with
+  | .error e => .error e
+  | .ok strats =>
+    (regObs cfg).foldlM (fun c (o : ObsSpec) =>
+        Results.registerObservation c o.name (PHASES.getD o.phase "") .adding o.add o.exc)
       ({ defaults := cfg.obsDefaults, strats := strats } : Results.Ctx)
-  Results.postSetup c
+
+/-- … then `ResultsManager.on_post_setup` -/
+def initRes (cfg : Config) : Except Results.Err Results.Ctx :=
+  match preRes cfg with
+  | .error e => .error e
+  | .ok c => Results.postSetup c
 
 /-- the mapper's output for one simulant -/
 def rawCat (sp : StratSpec) (r : Row) : String :=
